@@ -46,13 +46,20 @@ type c19Seen struct {
 	Meta   []vt.KV
 }
 
+type c19Gate struct{ entered, gate chan struct{} }
+
+// c19Backend: every request of a case has its own service method, so plans and observations are
+// kept per method (requests of one case run one after the other or concurrently).
 type c19Backend struct {
-	mu      sync.Mutex
-	calls   []c19Seen
-	pushes  []c19Seen
-	plan    c19Case
-	entered chan struct{}
-	gate    chan struct{}
+	mu     sync.Mutex
+	calls  map[string][]c19Seen
+	pushes map[string][]c19Seen
+	plans  map[string]c19Case
+	gates  map[string]*c19Gate
+}
+
+func newC19Backend() *c19Backend {
+	return &c19Backend{calls: map[string][]c19Seen{}, pushes: map[string][]c19Seen{}, plans: map[string]c19Case{}, gates: map[string]*c19Gate{}}
 }
 
 func (b *c19Backend) see(ctx interface {
@@ -66,16 +73,29 @@ func (b *c19Backend) see(ctx interface {
 	return s
 }
 
-func (b *c19Backend) call(ctx erpc.UnknownCallCtx) (interface{}, *erpc.Status) {
+func (b *c19Backend) seenCalls(method string) []c19Seen {
 	b.mu.Lock()
-	b.calls = append(b.calls, b.see(ctx))
-	p := b.plan
-	entered, gate := b.entered, b.gate
-	b.entered, b.gate = nil, nil
+	defer b.mu.Unlock()
+	return append([]c19Seen(nil), b.calls[method]...)
+}
+
+func (b *c19Backend) seenPushes(method string) []c19Seen {
+	b.mu.Lock()
+	defer b.mu.Unlock()
+	return append([]c19Seen(nil), b.pushes[method]...)
+}
+
+func (b *c19Backend) call(ctx erpc.UnknownCallCtx) (interface{}, *erpc.Status) {
+	seen := b.see(ctx)
+	b.mu.Lock()
+	b.calls[seen.Method] = append(b.calls[seen.Method], seen)
+	p := b.plans[seen.Method]
+	g := b.gates[seen.Method]
+	delete(b.gates, seen.Method)
 	b.mu.Unlock()
-	if entered != nil {
-		close(entered)
-		<-gate
+	if g != nil {
+		close(g.entered)
+		<-g.gate
 	}
 	for _, kv := range p.RepMeta {
 		ctx.SetMeta(kv.K, kv.V)
@@ -93,14 +113,62 @@ func (b *c19Backend) call(ctx erpc.UnknownCallCtx) (interface{}, *erpc.Status) {
 }
 
 func (b *c19Backend) push(ctx erpc.UnknownPushCtx) *erpc.Status {
+	seen := b.see(ctx)
 	b.mu.Lock()
-	b.pushes = append(b.pushes, b.see(ctx))
+	b.pushes[seen.Method] = append(b.pushes[seen.Method], seen)
 	b.mu.Unlock()
 	return nil
 }
 
-func genC19(t *rapid.T, protos []vt.NamedProto) c19Case {
-	c := c19Case{Proto: rapid.SampledFrom(protos).Draw(t, "proto").Name}
+// c19Seq is one case: a history of 1-8 steps over the same backend / proxy / caller peers (one
+// process: the framework's pools are shared by all of them). A step is one request pair (call or
+// push, possibly with a backend failure) or 2-4 call pairs issued by concurrent callers.
+type c19Seq struct {
+	Steps [][]c19Case
+}
+
+func genC19MetaValue(t *rapid.T, label string) string {
+	switch rapid.IntRange(0, 9).Draw(t, label+".class") {
+	case 0, 1, 2, 3:
+		return "" // an empty value is a value
+	case 4:
+		return string(rapid.SliceOfN(rapid.ByteRange('a', 'z'), 1, 3).Draw(t, label+".short"))
+	case 5, 6:
+		n := rapid.IntRange(8, 40).Draw(t, label+".longlen")
+		return string(rapid.SliceOfN(rapid.ByteRange('0', '9'), n, n).Draw(t, label+".long"))
+	default:
+		return string(vt.Bytes(t, label, 20))
+	}
+}
+
+func genC19Seq(t *rapid.T, protos []vt.NamedProto) c19Seq {
+	shared := c19Case{Proto: rapid.SampledFrom(protos).Draw(t, "proto").Name}
+	shared.ProxyCode = rapid.SampledFrom([]string{"json", "plain", "xml"}).Draw(t, "proxycodec")
+	shared.Renamed = rapid.SampledFrom([]string{"", "", "user-42", "10.9.8.7:65"}).Draw(t, "renamed")
+	var q c19Seq
+	nsteps := rapid.SampledFrom([]int{1, 1, 2, 3, 4, 5, 6, 8}).Draw(t, "steps")
+	concurrent := rapid.Bool().Draw(t, "concurrentcase")
+	for i := 0; i < nsteps; i++ {
+		callers := 1
+		if concurrent && rapid.IntRange(0, 2).Draw(t, "burst") != 0 {
+			callers = rapid.IntRange(2, 4).Draw(t, "callers")
+		}
+		var step []c19Case
+		for j := 0; j < callers; j++ {
+			c := genC19(t, shared)
+			c.Method += fmt.Sprintf("/q%d_%d", i, j)
+			if callers > 1 {
+				c.Kind, c.Failure = "call", ""
+			}
+			step = append(step, c)
+		}
+		q.Steps = append(q.Steps, step)
+	}
+	return q
+}
+
+func genC19(t *rapid.T, shared c19Case) c19Case {
+	c := c19Case{Proto: shared.Proto, ProxyCode: shared.ProxyCode, Renamed: shared.Renamed}
 	c.Kind = rapid.SampledFrom([]string{"call", "call", "call", "push"}).Draw(t, "kind")
 	c.Method = rapid.StringMatching(`/[a-z]{1,8}(/[a-z0-9_]{1,8}){0,2}`).Draw(t, "method")
 	c.Codec = rapid.SampledFrom([]byte{'j', 's', 'p', 'f', 'x'}).Draw(t, "codec")
@@ -117,7 +185,7 @@ func genC19(t *rapid.T, protos []vt.NamedProto) c19Case {
 	}
 	n := rapid.IntRange(0, 3).Draw(t, "nmeta")
 	for i := 0; i < n; i++ {
-		c.ReqMeta = append(c.ReqMeta, vt.KV{K: rapid.SampledFrom([]string{"Trace", "User", "Trace", "A-B"}).Draw(t, "mk"), V: string(vt.Bytes(t, "mv", 20))})
+		c.ReqMeta = append(c.ReqMeta, vt.KV{K: rapid.SampledFrom([]string{"Trace", "User", "Trace", "A-B"}).Draw(t, "mk"), V: genC19MetaValue(t, "mv")})
 	}
 	if rapid.Bool().Draw(t, "hasrealip") {
 		c.RealIP = rapid.SampledFrom([]string{"1.2.3.4:5", "client-7"}).Draw(t, "realip")
@@ -132,9 +200,12 @@ func genC19(t *rapid.T, protos []vt.NamedProto) c19Case {
 	if rapid.IntRange(0, 2).Draw(t, "hasrepcodec") == 0 {
 		c.RepCodec = rapid.SampledFrom([]byte{'j', 's', 'x', 'f'}).Draw(t, "repcodec")
 	}
-	n = rapid.IntRange(0, 3).Draw(t, "nrepmeta")
+	// reply metadata: few keys, so that consecutive replies carry the same keys at the same
+	// positions with values of other lengths (empty ones included); the handler sets them with
+	// SetMeta, i.e. a repeated key keeps its last value (one value per key)
+	n = rapid.SampledFrom([]int{0, 1, 2, 2, 3, 3, 4}).Draw(t, "nrepmeta")
 	for i := 0; i < n; i++ {
-		c.RepMeta = append(c.RepMeta, vt.KV{K: rapid.SampledFrom([]string{"Server", "Cost", "Node"}).Draw(t, "rk"), V: string(vt.Bytes(t, "rv", 20))})
+		c.RepMeta = append(c.RepMeta, vt.KV{K: rapid.SampledFrom([]string{"Server", "Cost", "Node", "Server"}).Draw(t, "rk"), V: genC19MetaValue(t, "rv")})
 	}
 	if rapid.IntRange(0, 2).Draw(t, "nonok") == 0 {
 		// handler statuses: the range [100,199] is reserved by the framework for the sending peer's own errors
@@ -147,9 +218,7 @@ func genC19(t *rapid.T, protos []vt.NamedProto) c19Case {
 		c.Msg = string(vt.Bytes(t, "msg", 40))
 		c.Cause = string(vt.Bytes(t, "cause", 40))
 	}
-	c.Failure = rapid.SampledFrom([]string{"", "", "", "", "down-before", "dies-during", "write-fails"}).Draw(t, "failure")
-	c.ProxyCode = rapid.SampledFrom([]string{"json", "plain", "xml"}).Draw(t, "proxycodec")
-	c.Renamed = rapid.SampledFrom([]string{"", "", "user-42", "10.9.8.7:65"}).Draw(t, "renamed")
+	c.Failure = rapid.SampledFrom([]string{"", "", "", "", "", "", "down-before", "dies-during", "write-fails"}).Draw(t, "failure")
 	return c
 }
 
@@ -200,183 +269,77 @@ func metaWithout(kvs []vt.KV, drop string) []string {
 	return out
 }
 
-func runC19(c c19Case, protos []vt.NamedProto) []string {
-	vt.Init()
-	proto := protoByName(protos, c.Proto)
-	w := vt.NewWorld()
-	defer w.Close()
-	be := &c19Backend{plan: c}
-	backend := w.Peer(erpc.PeerConfig{})
-	backend.SetUnknownCall(be.call)
-	backend.SetUnknownPush(be.push)
-	var cur struct {
+// c19World: the peers and sessions one history runs over.
+type c19World struct {
+	w                       *vt.World
+	proto                   vt.NamedProto
+	be                      *c19Backend
+	backend, prox, caller   erpc.Peer
+	direct, p2b, c2p, other *vt.Link
+	cur                     struct {
 		sync.Mutex
-		sess erpc.Session
+		sess   erpc.Session
+		labels []proxy.Label
 	}
-	var labels []proxy.Label
-	prox := w.Peer(erpc.PeerConfig{DefaultBodyCodec: c.ProxyCode}, proxy.NewPlugin(func(l *proxy.Label) proxy.Forwarder {
-		cur.Lock()
-		defer cur.Unlock()
-		labels = append(labels, *l)
-		return cur.sess
+}
+
+func newC19World(shared c19Case, protos []vt.NamedProto) (*c19World, string) {
+	x := &c19World{w: vt.NewWorld(), proto: protoByName(protos, shared.Proto), be: newC19Backend()}
+	x.backend = x.w.Peer(erpc.PeerConfig{})
+	x.backend.SetUnknownCall(x.be.call)
+	x.backend.SetUnknownPush(x.be.push)
+	x.prox = x.w.Peer(erpc.PeerConfig{DefaultBodyCodec: shared.ProxyCode}, proxy.NewPlugin(func(l *proxy.Label) proxy.Forwarder {
+		x.cur.Lock()
+		defer x.cur.Unlock()
+		// the label is read while the forwarder function runs (its strings are copied: what a label
+		// kept beyond the request reads later is not part of the property)
+		x.cur.labels = append(x.cur.labels, proxy.Label{SessionID: strings.Clone(l.SessionID), RealIP: strings.Clone(l.RealIP), ServiceMethod: strings.Clone(l.ServiceMethod)})
+		return x.cur.sess
 	}))
-	caller := w.Peer(erpc.PeerConfig{})
-	var fails []string
-	failf := func(format string, a ...interface{}) { fails = append(fails, fmt.Sprintf(format, a...)) }
-
-	direct := w.Connect(caller, backend, proto, nil)
-	p2b := w.Connect(prox, backend, proto, nil)
-	c2p := w.Connect(caller, prox, proto, nil)
-	other := w.Connect(caller, prox, proto, nil) // another session of the proxy
-	for _, l := range []*vt.Link{direct, p2b, c2p, other} {
+	x.caller = x.w.Peer(erpc.PeerConfig{})
+	x.direct = x.w.Connect(x.caller, x.backend, x.proto, nil)
+	x.p2b = x.w.Connect(x.prox, x.backend, x.proto, nil)
+	x.c2p = x.w.Connect(x.caller, x.prox, x.proto, nil)
+	x.other = x.w.Connect(x.caller, x.prox, x.proto, nil) // another session of the proxy
+	for _, l := range []*vt.Link{x.direct, x.p2b, x.c2p, x.other} {
 		if l.A == nil || l.B == nil {
-			return []string{"connect failed"}
+			x.w.Close()
+			return nil, "connect failed"
 		}
 	}
-	cur.sess = p2b.A
-	if c.Renamed != "" {
-		c2p.B.SetID(c.Renamed)
+	x.cur.sess = x.p2b.A
+	if shared.Renamed != "" {
+		x.c2p.B.SetID(shared.Renamed)
 	}
-	// what the forwarder function is told about the request: who asks (session id), from
-	// where (the same real IP the backend is told) and for what
-	checkLabel := func() string {
-		cur.Lock()
-		defer cur.Unlock()
-		wantIP := c.RealIP
-		if wantIP == "" {
-			wantIP = c2p.B.RemoteAddr().String()
-		}
-		for _, l := range labels {
-			if l.SessionID != c2p.B.ID() || l.RealIP != wantIP || l.ServiceMethod != c.Method {
-				return fmt.Sprintf("the forwarder function was given label %+v, want {SessionID:%s RealIP:%s ServiceMethod:%s}", l, c2p.B.ID(), wantIP, c.Method)
-			}
-		}
-		return ""
-	}
+	return x, ""
+}
 
-	if c.Kind == "push" {
-		if st := direct.A.Push(c.Method, append([]byte(nil), c.Body...), c.settings(true)...); !st.OK() {
-			return []string{"direct push failed: " + st.String()}
-		}
-		// the direct push has arrived before the proxied one is sent: pushes[0] is the direct one
-		if !vt.WaitUntilFor(5*time.Second, func() bool { be.mu.Lock(); defer be.mu.Unlock(); return len(be.pushes) >= 1 }) {
-			return []string{"the direct push did not reach the backend"}
-		}
-		if st := c2p.A.Push(c.Method, append([]byte(nil), c.Body...), c.settings(true)...); !st.OK() {
-			return []string{"proxied push failed to send: " + st.String()}
-		}
-		if !vt.WaitUntilFor(5*time.Second, func() bool { be.mu.Lock(); defer be.mu.Unlock(); return len(be.pushes) >= 2 }) {
-			be.mu.Lock()
-			n := len(be.pushes)
-			be.mu.Unlock()
-			return []string{fmt.Sprintf("the backend received %d of 2 pushes (direct + proxied)", n)}
-		}
-		time.Sleep(200 * time.Microsecond)
-		be.mu.Lock()
-		ps := append([]c19Seen(nil), be.pushes...)
-		be.mu.Unlock()
-		if len(ps) != 2 {
-			return []string{fmt.Sprintf("the backend received %d pushes for one direct and one proxied push", len(ps))}
-		}
-		d, p := ps[0], ps[1]
-		if !bytes.Equal(d.Body, p.Body) || d.Method != p.Method || d.Codec != p.Codec {
-			failf("proxied push differs from the direct push at the backend: direct {%s %x codec %d} proxied {%s %x codec %d}", d.Method, d.Body, d.Codec, p.Method, p.Body, p.Codec)
-		}
-		if a, b := metaWithout(d.Meta, erpc.MetaRealIP), metaWithout(p.Meta, erpc.MetaRealIP); strings.Join(a, "&") != strings.Join(b, "&") {
-			failf("proxied push metadata differs: direct %v proxied %v", a, b)
-		}
-		var pushIPs []string
-		for _, kv := range p.Meta {
-			if kv.K == erpc.MetaRealIP {
-				pushIPs = append(pushIPs, kv.V)
-			}
-		}
-		wantPushIP := c.RealIP
-		if wantPushIP == "" {
-			wantPushIP = c2p.B.RemoteAddr().String()
-		}
-		if len(pushIPs) != 1 || pushIPs[0] != wantPushIP {
-			failf("backend saw real-IP metadata %v on the proxied push, want exactly [%s]", pushIPs, wantPushIP)
-		}
-		if m := checkLabel(); m != "" {
-			failf("%s", m)
-		}
-		return fails
+func (x *c19World) wantIP(c c19Case, via *vt.Link) string {
+	if c.RealIP != "" {
+		return c.RealIP
 	}
+	return via.B.RemoteAddr().String()
+}
 
-	// ---- calls ---------------------------------------------------------------------
-	dres, msg := doCall(direct.A, c)
-	if msg != "" {
-		return []string{msg}
+// checkLabel: what the forwarder function is told about the request: who asks (session id),
+// from where (the same real IP the backend is told) and for what.
+func (x *c19World) checkLabel(c c19Case, via *vt.Link) string {
+	x.cur.Lock()
+	defer x.cur.Unlock()
+	wantIP := x.wantIP(c, via)
+	for _, l := range x.cur.labels {
+		if l.ServiceMethod != c.Method {
+			continue
+		}
+		if l.SessionID != via.B.ID() || l.RealIP != wantIP {
+			return fmt.Sprintf("the forwarder function was given label %+v, want {SessionID:%s RealIP:%s ServiceMethod:%s}", l, via.B.ID(), wantIP, c.Method)
+		}
 	}
-	be.mu.Lock()
-	if len(be.calls) != 1 {
-		be.mu.Unlock()
-		return []string{"direct call did not reach the backend exactly once"}
-	}
-	dseen := be.calls[0]
-	be.calls = nil
-	be.mu.Unlock()
+	return ""
+}
 
-	switch c.Failure {
-	case "down-before":
-		p2b.A.Close()
-		vt.WaitClosed(p2b.A.CloseNotify())
-	case "write-fails":
-		// the proxy's connection to the backend is half-broken: sending fails with an
-		// I/O error while the session still looks healthy
-		p2b.Pair.FailWrites(vt.AtoB, errors.New("write: broken pipe"))
-	case "dies-during":
-		be.mu.Lock()
-		be.entered, be.gate = make(chan struct{}), make(chan struct{})
-		entered, gate := be.entered, be.gate
-		be.mu.Unlock()
-		go func() {
-			if vt.WaitClosed(entered) {
-				p2b.Pair.Cut()
-				time.Sleep(100 * time.Microsecond)
-			}
-			close(gate)
-		}()
-	}
-	pres, msg := doCall(c2p.A, c)
-	if msg != "" {
-		return []string{msg}
-	}
-	if c.Failure != "" {
-		if pres.Status.Code != erpc.CodeBadGateway {
-			failf("backend connection failure (%s): the proxied call completed with %+v, want Bad Gateway (502)", c.Failure, pres.Status)
-		}
-		// that call only: restore the backend session; the next proxied call succeeds, other sessions are unaffected
-		be.mu.Lock()
-		be.calls = nil
-		be.mu.Unlock()
-		p2b2 := w.Connect(prox, backend, proto, nil)
-		if p2b2.A == nil {
-			return append(fails, "reconnect failed")
-		}
-		cur.Lock()
-		cur.sess = p2b2.A
-		cur.Unlock()
-		for name, s := range map[string]erpc.Session{"same session": c2p.A, "another session": other.A} {
-			r, msg := doCall(s, c)
-			if msg != "" {
-				return append(fails, msg)
-			}
-			if r.Status != dres.Status || !bytes.Equal(r.Body, dres.Body) {
-				failf("after the backend was restored a proxied call on %s gives %+v / %x, the direct call gave %+v / %x", name, r.Status, r.Body, dres.Status, dres.Body)
-			}
-		}
-		return fails
-	}
-	be.mu.Lock()
-	pcalls := append([]c19Seen(nil), be.calls...)
-	be.mu.Unlock()
-	if len(pcalls) != 1 {
-		failf("the proxied call reached the backend %d times, want exactly once", len(pcalls))
-		return fails
-	}
-	pseen := pcalls[0]
+// compareCall is the differential oracle for one call pair: what the backend saw and what the caller got.
+func (x *c19World) compareCall(c c19Case, via *vt.Link, dres, pres c19Result, dseen, pseen c19Seen, failf func(format string, a ...interface{})) {
 	// what the backend saw
 	if pseen.Method != dseen.Method || !bytes.Equal(pseen.Body, dseen.Body) {
 		failf("backend saw method/body {%s %x} via the proxy, {%s %x} directly", pseen.Method, pseen.Body, dseen.Method, dseen.Body)
@@ -385,7 +348,7 @@ func runC19(c c19Case, protos []vt.NamedProto) []string {
 		failf("backend saw body codec %q via the proxy, %q directly (caller used %q, proxy default %s)", pseen.Codec, dseen.Codec, c.Codec, c.ProxyCode)
 	}
 	if a, b := metaWithout(dseen.Meta, erpc.MetaRealIP), metaWithout(pseen.Meta, erpc.MetaRealIP); strings.Join(a, "&") != strings.Join(b, "&") {
-		failf("backend saw request metadata %v via the proxy, %v directly", b, a)
+		failf("backend saw request metadata %q via the proxy, %q directly", b, a)
 	}
 	var realIPs []string
 	for _, kv := range pseen.Meta {
@@ -393,14 +356,10 @@ func runC19(c c19Case, protos []vt.NamedProto) []string {
 			realIPs = append(realIPs, kv.V)
 		}
 	}
-	wantIP := c.RealIP
-	if wantIP == "" {
-		wantIP = c2p.B.RemoteAddr().String()
-	}
-	if len(realIPs) != 1 || realIPs[0] != wantIP {
+	if wantIP := x.wantIP(c, via); len(realIPs) != 1 || realIPs[0] != wantIP {
 		failf("backend saw real-IP metadata %v via the proxy, want exactly [%s]", realIPs, wantIP)
 	}
-	if m := checkLabel(); m != "" {
+	if m := x.checkLabel(c, via); m != "" {
 		failf("%s", m)
 	}
 	// what the caller sees
@@ -413,35 +372,258 @@ func runC19(c c19Case, protos []vt.NamedProto) []string {
 	if pres.Status.Code == 0 && pres.Codec != dres.Codec {
 		failf("reply body codec via the proxy %q, directly %q", pres.Codec, dres.Codec)
 	}
-	var dk, pk []string
-	for k, v := range dres.RepMeta {
-		dk = append(dk, k+"="+v)
+	// reply metadata as key -> one value (an empty value is a value): both paths equal (what the
+	// backend handler set is only printed)
+	want := map[string]string{}
+	for _, kv := range c.RepMeta {
+		want[kv.K] = kv.V
 	}
-	for k, v := range pres.RepMeta {
-		pk = append(pk, k+"="+v)
+	render := func(m map[string]string) string {
+		var ks []string
+		for k, v := range m {
+			ks = append(ks, fmt.Sprintf("%q=%q", k, v))
+		}
+		sort.Strings(ks)
+		return strings.Join(ks, " & ")
 	}
-	sort.Strings(dk)
-	sort.Strings(pk)
-	if strings.Join(dk, "&") != strings.Join(pk, "&") {
-		failf("reply metadata via the proxy %v, directly %v", pk, dk)
+	if d, p := render(dres.RepMeta), render(pres.RepMeta); d != p {
+		failf("reply metadata via the proxy {%s}, directly {%s} (the backend's handler set {%s})", p, d, render(want))
+	}
+}
+
+// step runs one request pair (direct, then through the proxy) with the full oracle, including backend failures.
+func (x *c19World) step(c c19Case) []string {
+	var fails []string
+	failf := func(format string, a ...interface{}) { fails = append(fails, fmt.Sprintf(format, a...)) }
+	be, direct, c2p, other := x.be, x.direct, x.c2p, x.other
+	be.mu.Lock()
+	be.plans[c.Method] = c
+	be.mu.Unlock()
+
+	if c.Kind == "push" {
+		if st := direct.A.Push(c.Method, append([]byte(nil), c.Body...), c.settings(true)...); !st.OK() {
+			return []string{"direct push failed: " + st.String()}
+		}
+		// the direct push has arrived before the proxied one is sent: pushes[0] is the direct one
+		if !vt.WaitUntilFor(5*time.Second, func() bool { return len(be.seenPushes(c.Method)) >= 1 }) {
+			return []string{"the direct push did not reach the backend"}
+		}
+		if st := c2p.A.Push(c.Method, append([]byte(nil), c.Body...), c.settings(true)...); !st.OK() {
+			return []string{"proxied push failed to send: " + st.String()}
+		}
+		if !vt.WaitUntilFor(5*time.Second, func() bool { return len(be.seenPushes(c.Method)) >= 2 }) {
+			return []string{fmt.Sprintf("the backend received %d of 2 pushes (direct + proxied)", len(be.seenPushes(c.Method)))}
+		}
+		time.Sleep(200 * time.Microsecond)
+		ps := be.seenPushes(c.Method)
+		if len(ps) != 2 {
+			return []string{fmt.Sprintf("the backend received %d pushes for one direct and one proxied push", len(ps))}
+		}
+		d, p := ps[0], ps[1]
+		if !bytes.Equal(d.Body, p.Body) || d.Method != p.Method || d.Codec != p.Codec {
+			failf("proxied push differs from the direct push at the backend: direct {%s %x codec %d} proxied {%s %x codec %d}", d.Method, d.Body, d.Codec, p.Method, p.Body, p.Codec)
+		}
+		if a, b := metaWithout(d.Meta, erpc.MetaRealIP), metaWithout(p.Meta, erpc.MetaRealIP); strings.Join(a, "&") != strings.Join(b, "&") {
+			failf("proxied push metadata differs: direct %q proxied %q", a, b)
+		}
+		var pushIPs []string
+		for _, kv := range p.Meta {
+			if kv.K == erpc.MetaRealIP {
+				pushIPs = append(pushIPs, kv.V)
+			}
+		}
+		if wantPushIP := x.wantIP(c, c2p); len(pushIPs) != 1 || pushIPs[0] != wantPushIP {
+			failf("backend saw real-IP metadata %v on the proxied push, want exactly [%s]", pushIPs, wantPushIP)
+		}
+		if m := x.checkLabel(c, c2p); m != "" {
+			failf("%s", m)
+		}
+		return fails
+	}
+
+	// ---- calls ---------------------------------------------------------------------
+	dres, msg := doCall(direct.A, c)
+	if msg != "" {
+		return []string{msg}
+	}
+	dcalls := be.seenCalls(c.Method)
+	if len(dcalls) != 1 {
+		return []string{"direct call did not reach the backend exactly once"}
+	}
+	dseen := dcalls[0]
+
+	p2b := x.p2b
+	switch c.Failure {
+	case "down-before":
+		p2b.A.Close()
+		vt.WaitClosed(p2b.A.CloseNotify())
+	case "write-fails":
+		// the proxy's connection to the backend is half-broken: sending fails with an
+		// I/O error while the session still looks healthy
+		p2b.Pair.FailWrites(vt.AtoB, errors.New("write: broken pipe"))
+	case "dies-during":
+		g := &c19Gate{entered: make(chan struct{}), gate: make(chan struct{})}
+		be.mu.Lock()
+		be.gates[c.Method] = g
+		be.mu.Unlock()
+		go func() {
+			if vt.WaitClosed(g.entered) {
+				p2b.Pair.Cut()
+				time.Sleep(100 * time.Microsecond)
+			}
+			close(g.gate)
+		}()
+	}
+	pres, msg := doCall(c2p.A, c)
+	if msg != "" {
+		return []string{msg}
+	}
+	if c.Failure != "" {
+		if pres.Status.Code != erpc.CodeBadGateway {
+			failf("backend connection failure (%s): the proxied call completed with %+v, want Bad Gateway (502)", c.Failure, pres.Status)
+		}
+		// that call only: restore the backend session; the next proxied call succeeds, other sessions are unaffected
+		be.mu.Lock()
+		delete(be.gates, c.Method)
+		be.mu.Unlock()
+		p2b2 := x.w.Connect(x.prox, x.backend, x.proto, nil)
+		if p2b2.A == nil {
+			return append(fails, "reconnect failed")
+		}
+		x.cur.Lock()
+		x.cur.sess = p2b2.A
+		x.cur.Unlock()
+		x.p2b = p2b2
+		for _, s := range []struct {
+			name string
+			sess erpc.Session
+		}{{"same session", c2p.A}, {"another session", other.A}} {
+			r, msg := doCall(s.sess, c)
+			if msg != "" {
+				return append(fails, msg)
+			}
+			if r.Status != dres.Status || !bytes.Equal(r.Body, dres.Body) {
+				failf("after the backend was restored a proxied call on %s gives %+v / %x, the direct call gave %+v / %x", s.name, r.Status, r.Body, dres.Status, dres.Body)
+			}
+		}
+		return fails
+	}
+	pcalls := be.seenCalls(c.Method)
+	if len(pcalls) != 2 {
+		failf("the proxied call reached the backend %d times, want exactly once", len(pcalls)-1)
+		return fails
+	}
+	x.compareCall(c, c2p, dres, pres, dseen, pcalls[1], failf)
+	return fails
+}
+
+// burst runs the call pairs of several callers concurrently (each caller: direct, then through
+// the proxy; callers alternate between the two sessions on the proxy peer).
+func (x *c19World) burst(cs []c19Case) []string {
+	type outcome struct {
+		dres, pres c19Result
+		msg        string
+	}
+	outs := make([]outcome, len(cs))
+	x.be.mu.Lock()
+	for _, c := range cs {
+		x.be.plans[c.Method] = c
+	}
+	x.be.mu.Unlock()
+	via := func(j int) *vt.Link {
+		if j%2 == 1 {
+			return x.other
+		}
+		return x.c2p
+	}
+	var wg sync.WaitGroup
+	for j := range cs {
+		wg.Add(1)
+		go func(j int) {
+			defer wg.Done()
+			o := &outs[j]
+			if o.dres, o.msg = doCall(x.direct.A, cs[j]); o.msg != "" {
+				return
+			}
+			o.pres, o.msg = doCall(via(j).A, cs[j])
+		}(j)
+	}
+	wg.Wait()
+	var fails []string
+	for j, c := range cs {
+		failf := func(format string, a ...interface{}) {
+			fails = append(fails, fmt.Sprintf("caller %d of %d concurrent ones (%s): ", j, len(cs), c.Method)+fmt.Sprintf(format, a...))
+		}
+		if outs[j].msg != "" {
+			return append(fails, outs[j].msg)
+		}
+		seen := x.be.seenCalls(c.Method)
+		if len(seen) != 2 {
+			failf("a direct and a proxied call reached the backend %d times, want exactly twice", len(seen))
+			continue
+		}
+		x.compareCall(c, via(j), outs[j].dres, outs[j].pres, seen[0], seen[1], failf)
 	}
 	return fails
 }
 
-const ruleC19 = "the same generated request (method, body bytes, body codec incl. ones different from the proxy peer's default, request metadata with repeated keys, real-IP metadata present/absent, accept-body-codec hint, optional transfer-filter pipe on the request and filters added by the backend to its reply) is sent to a backend directly and through a peer running the proxy plugin (on which the caller's session keeps its default id or was renamed with SetID, as an auth hook does); the backend's unknown-handler returns generated body bytes / reply codec / reply metadata / status (any code outside the framework-reserved 100-199); pushes likewise; backend failures: session closed before the call, connection cut while the backend handler is gated, sending to the backend fails with an I/O error while its session still looks healthy; oracle (differential): caller-visible status triple, body bytes, reply codec and reply metadata (key -> one value) equal for both paths; backend saw the same method, body, codec and metadata exactly once plus real-IP = the original caller's address iff absent, and the forwarder function's label names the caller's session id, that real IP and the method; a backend connection failure gives 502 on that call only (next proxied call on the same and on another session equals the direct result); non-trivial = non-default codec, repeated/special metadata, non-OK status or a failure; distinct by case"
+func runC19(q c19Seq, protos []vt.NamedProto) []string {
+	vt.Init()
+	x, msg := newC19World(q.Steps[0][0], protos)
+	if msg != "" {
+		return []string{msg}
+	}
+	defer x.w.Close()
+	for i, st := range q.Steps {
+		var fails []string
+		if len(st) == 1 {
+			fails = x.step(st[0])
+		} else {
+			fails = x.burst(st)
+		}
+		if len(fails) > 0 {
+			for k := range fails {
+				fails[k] = fmt.Sprintf("step %d of %d: %s", i, len(q.Steps), fails[k])
+			}
+			return fails
+		}
+	}
+	return nil
+}
+
+const ruleC19 = "a HISTORY of 1-8 steps over the same backend / proxy / caller peers and sessions (one process, shared pools); a step is one request pair or, in half of the cases, 2-4 call pairs issued by concurrent callers over the two sessions of the proxy peer; a request pair = the same generated request (own service method, body bytes, body codec incl. ones different from the proxy peer's default, request metadata with repeated keys and empty values, real-IP metadata present/absent, accept-body-codec hint, optional transfer-filter pipe on the request and filters added by the backend to its reply) sent to a backend directly and through a peer running the proxy plugin (on which the caller's session keeps its default id or was renamed with SetID, as an auth hook does); the backend's unknown-handler returns generated body bytes / reply codec / reply metadata (0-4 entries over three keys set with SetMeta - a repeated key keeps one value -, values empty, short, long or arbitrary bytes, so consecutive replies carry other lengths at the same position) / status (any code outside the framework-reserved 100-199); pushes likewise; backend failures inside a history: session closed before the call, connection cut while the backend handler is gated, sending to the backend fails with an I/O error while its session still looks healthy (the backend session is then replaced and the history goes on); oracle (differential, per pair): caller-visible status triple, body bytes, reply codec and reply metadata (key -> one value, an empty value is a value) equal for both paths; backend saw the same method, body, codec and metadata exactly once plus real-IP = the original caller's address iff absent, and the forwarder function's label names the caller's session id, that real IP and the method; a backend connection failure gives 502 on that call only (next proxied call on the same and on another session equals the direct result); non-trivial = >=2 steps, or non-default codec, repeated/special metadata, non-OK status or a failure; distinct by case"
 
 func TestC19Proxy(t *testing.T) {
 	rec := vt.NewRec(t, "C19", "proxy", ruleC19)
 	protos := vt.StreamProtos()
 	rapid.Check(t, func(t *rapid.T) {
-		c := genC19(t, protos)
-		nt := c.Code != 0 || c.Failure != "" || len(c.ReqMeta) > 1 || c.Codec != 'j' || c.RepCodec != 0
-		rec.Case(fmt.Sprintf("%+v", c), nt, "kind="+c.Kind, "failure="+c.Failure, fmt.Sprintf("nonok=%v", c.Code != 0))
-		if rec.WantSample() && nt {
-			rec.Sample(map[string]interface{}{"proto": c.Proto, "kind": c.Kind, "method": c.Method, "codec": string(c.Codec), "proxy_default_codec": c.ProxyCode, "req_meta": c.ReqMeta, "real_ip": c.RealIP, "status_code": c.Code, "failure": c.Failure, "body": vt.Hex(c.Body)})
+		q := genC19Seq(t, protos)
+		nt := len(q.Steps) > 1
+		classes := []string{fmt.Sprintf("steps=%d", len(q.Steps))}
+		burst, emptyRep, emptyReq := false, false, false
+		var kinds []string
+		for _, st := range q.Steps {
+			burst = burst || len(st) > 1
+			for _, c := range st {
+				nt = nt || c.Code != 0 || c.Failure != "" || len(c.ReqMeta) > 1 || c.Codec != 'j' || c.RepCodec != 0
+				classes = append(classes, "kind="+c.Kind, "failure="+c.Failure, fmt.Sprintf("nonok=%v", c.Code != 0))
+				kinds = append(kinds, c.Kind+":"+c.Failure)
+				for _, kv := range c.RepMeta {
+					emptyRep = emptyRep || kv.V == ""
+				}
+				for _, kv := range c.ReqMeta {
+					emptyReq = emptyReq || kv.V == ""
+				}
+			}
 		}
-		if fails := runC19(c, protos); len(fails) > 0 {
-			t.Fatalf("C19 violated (%d findings), first: %s\ncase: %+v", len(fails), fails[0], c)
+		classes = append(classes, fmt.Sprintf("concurrent-callers=%v", burst), fmt.Sprintf("empty-reply-meta-value=%v", emptyRep), fmt.Sprintf("empty-request-meta-value=%v", emptyReq))
+		rec.Case(fmt.Sprintf("%+v", q), nt, classes...)
+		if rec.WantSample() && nt {
+			c := q.Steps[0][0]
+			rec.Sample(map[string]interface{}{"proto": c.Proto, "steps": kinds, "concurrent_callers": burst, "first_step": map[string]interface{}{"kind": c.Kind, "method": c.Method, "codec": string(c.Codec), "proxy_default_codec": c.ProxyCode, "req_meta": c.ReqMeta, "rep_meta": c.RepMeta, "real_ip": c.RealIP, "status_code": c.Code, "failure": c.Failure, "body": vt.Hex(c.Body)}})
+		}
+		if fails := runC19(q, protos); len(fails) > 0 {
+			t.Fatalf("C19 violated (%d findings), first: %s\ncase: %+v", len(fails), fails[0], q)
 		}
 	})
 }
